@@ -308,3 +308,32 @@ def q_empty_selfloop(py_states, results):
     _check(s, "empty_selfloop: in the %d states that ask for #Empty a blank line is built and nothing else happens" % len(asked), results)
     not_asked = sorted(set(py_states) - set(asked))
     return asked, not_asked
+
+
+def q_lookaheads(py_las, results, cfg=None):
+    """look-ahead definitions: for every kind, membership in the expected / skip set of each Python look-ahead equals the
+    sibling parsers' and the hint of gherkin.berp ([skip->expected])"""
+    from . import extract
+    k = z3.Int("kind")
+
+    def member(names):
+        return z3.Or(*[k == KINDS.index(n) for n in names]) if names else z3.BoolVal(False)
+
+    refs = {}
+    for lang in extract.SIBLINGS:
+        refs[lang] = extract.sibling_lookaheads(lang)
+    if cfg is not None:
+        keys = berp_la_keys(cfg)
+        refs["gherkin.berp"] = {la: {"expected": [t[1:] for t in keys[la][1]], "skip": [t[1:] for t in keys[la][0]]} for la in keys}
+    for name, ref in refs.items():
+        s = z3.Solver()
+        s.add(k >= 0, k < len(KINDS))
+        diffs = []
+        for la in LA_IDS:
+            if la not in ref:
+                diffs.append(z3.BoolVal(True))
+                continue
+            diffs.append(member(py_las[la]["expected"]) != member(ref[la]["expected"]))
+            diffs.append(member(py_las[la]["skip"]) != member(ref[la]["skip"]))
+        s.add(z3.Or(*diffs))
+        _check(s, "look-ahead definitions (expected / skip sets) equal %s" % name, results)
